@@ -1,6 +1,6 @@
 CONSTANTS
   NTx = 4
-  NOut = 2
+  NOut = 3
   Workers = {1, 2, 3}
   Collect = "indexed"
 SPECIFICATION Spec
